@@ -282,11 +282,89 @@ pub fn run_c13(ctx: &Ctx) -> Report {
 }
 
 // ------------------------------------------------------------------ C14
-#[derive(Clone, Copy, Debug, PartialEq, bytemuck::Pod, bytemuck::Zeroable, borsh::BorshSerialize, borsh::BorshDeserialize, serde::Serialize, serde::Deserialize)]
+#[derive(Clone, Copy, Debug, Default, PartialEq, bytemuck::Pod, bytemuck::Zeroable, borsh::BorshSerialize, borsh::BorshDeserialize, serde::Serialize, serde::Deserialize)]
 #[repr(transparent)]
 pub struct N64(pub u64);
 impl Nullable for N64 {
     const NONE: Self = N64(0);
+}
+
+/// carriers whose none value differs from their Default value
+#[derive(Clone, Copy, Debug, Default, PartialEq, bytemuck::Pod, bytemuck::Zeroable, borsh::BorshSerialize, borsh::BorshDeserialize, serde::Serialize, serde::Deserialize)]
+#[repr(transparent)]
+pub struct M64(pub u64);
+impl Nullable for M64 {
+    const NONE: Self = M64(u64::MAX);
+}
+#[derive(Clone, Copy, Debug, Default, PartialEq, bytemuck::Pod, bytemuck::Zeroable, borsh::BorshSerialize, borsh::BorshDeserialize, serde::Serialize, serde::Deserialize)]
+#[repr(transparent)]
+pub struct K64(pub u64);
+impl Nullable for K64 {
+    const NONE: Self = K64(0x0100_0000_0000_0001);
+}
+trait Carrier: Nullable + bytemuck::Pod + Copy + Default + std::fmt::Debug + serde::Serialize + serde::de::DeserializeOwned + borsh::BorshSerialize + borsh::BorshDeserialize + std::panic::RefUnwindSafe + std::panic::UnwindSafe {
+    fn mk(v: u64) -> Self;
+    fn val(&self) -> u64;
+}
+impl Carrier for M64 { fn mk(v: u64) -> Self { M64(v) } fn val(&self) -> u64 { self.0 } }
+impl Carrier for K64 { fn mk(v: u64) -> Self { K64(v) } fn val(&self) -> u64 { self.0 } }
+impl Carrier for N64 { fn mk(v: u64) -> Self { N64(v) } fn val(&self) -> u64 { self.0 } }
+
+/// the PodOption laws for a u64 carrier with an arbitrary none value
+fn carrier_laws<T: Carrier>(rep: &mut Report, rng: &mut Rng, n: usize, name: &str) {
+    let none = T::NONE.val();
+    let bad = |rep: &mut Report, what: &str, v: u64| {
+        rep.violate(&format!("podoption-{}", name), what, serde_json::json!({"carrier": name, "none": none, "v": v}).to_string());
+    };
+    // default is none, whatever T::default() is
+    let d = PodOption::<T>::default();
+    rep.count(&format!("{}:default", name));
+    if d.get().is_some() || bytes_of(&d) != none.to_le_bytes() || PodOption::<T>::try_from(None).ok().map(|p| p.get().is_none()) != Some(true) {
+        bad(rep, "the default / the image of None must be none (the designated none value, not T::default())", none);
+    }
+    rep.case(format!("CDefG {} {}", none, u64::from_le_bytes(bytes_of(&d).try_into().unwrap())), true);
+    let tn = catch(|| PodOption::<T>::try_from(None));
+    rep.case(format!("CTryG {} None {}", none, tn.emit(|q| format!("{}", u64::from_le_bytes(bytes_of(q).try_into().unwrap())))), true);
+    let mut vals: Vec<u64> = vec![0, 1, u64::MAX, u64::MAX - 1, none, none ^ 1, none.wrapping_add(1), none.wrapping_sub(1), T::default().val()];
+    for b in 0..64 {
+        vals.push(none ^ (1u64 << b));
+    }
+    for _ in 0..n {
+        vals.push(if rng.chance(1, 8) { none } else { rng.next_u64() });
+    }
+    for v in vals {
+        let is_none = v == none;
+        rep.count(&format!("{}:{}", name, if is_none { "none" } else { "some" }));
+        let p = PodOption::from(T::mk(v));
+        let want = if is_none { None } else { Some(T::mk(v)) };
+        let mut pm = p;
+        if p.get() != want || p.copied() != want || p.cloned() != want || p.as_ref() != want.as_ref() || pm.as_mut().map(|x| *x) != want
+            || Option::<T>::from(p) != want || COption::<T>::from(p) != (match want { Some(x) => COption::Some(x), None => COption::None }) {
+            bad(rep, "reads as none exactly when the value equals the none value", v);
+        }
+        if bytes_of(&p) != v.to_le_bytes() || borsh::to_vec(&p).unwrap() != v.to_le_bytes() {
+            bad(rep, "memory / Borsh encoding differs from the wrapped value's", v);
+        }
+        let t = catch(|| PodOption::try_from(Some(T::mk(v))));
+        let tc = catch(|| PodOption::try_from(COption::Some(T::mk(v))));
+        if t.is_ok() == is_none || tc.is_ok() == is_none || (!is_none && (t != Res::Ok(p) || tc != Res::Ok(p))) {
+            bad(rep, "Some(none-value) is the only rejected input of TryFrom<Option/COption>", v);
+        }
+        let js = serde_json::to_string(&p).unwrap();
+        if js != if is_none { "null".to_string() } else { v.to_string() } {
+            bad(rep, "Serde encoding", v);
+        }
+        if serde_json::from_str::<PodOption<T>>(&v.to_string()).is_ok() == is_none
+            || bincode::deserialize::<PodOption<T>>(&bincode::serialize(&Some(T::mk(v))).unwrap()).is_ok() == is_none {
+            bad(rep, "Serde deserialisers must reject exactly Some(none-value)", v);
+        }
+        if serde_json::from_str::<PodOption<T>>("null").ok().map(|q| q.get().is_none()) != Some(true) {
+            bad(rep, "Serde null must deserialise to none", v);
+        }
+        rep.monitor_case(0, false);
+        rep.case(format!("COptG {} {} {}", none, v, emit::option(p.get().map(|x| format!("{}", x.val())))), !is_none);
+        rep.case(format!("CTryG {} (Some {}) {}", none, v, t.emit(|q| format!("{}", u64::from_le_bytes(bytes_of(q).try_into().unwrap())))), true);
+    }
 }
 
 fn addr_values(rng: &mut Rng, n: usize) -> Vec<[u8; 32]> {
@@ -309,13 +387,56 @@ fn addr_values(rng: &mut Rng, n: usize) -> Vec<[u8; 32]> {
         }
         v.push(a);
     }
+    // non-zero values whose words cancel under a fold (+, ^, wrapping over any word size):
+    // what a "compare a word at a time" shortcut would misread as none
+    for &w in &[1usize, 2, 4, 8, 16] {
+        let words = 32 / w;
+        for _ in 0..(n / 10 + 12) {
+            let i = rng.below(words as u64) as usize;
+            let mut j = rng.below(words as u64) as usize;
+            if j == i {
+                j = (i + 1) % words;
+            }
+            let mut x = vec![0u8; w];
+            for b in x.iter_mut() {
+                *b = rng.byte();
+            }
+            if x.iter().all(|&b| b == 0) {
+                x[0] = 1;
+            }
+            // two's complement of x over w bytes
+            let mut neg = vec![0u8; w];
+            let mut carry = 1u16;
+            for k in 0..w {
+                let t = (!x[k]) as u16 + carry;
+                neg[k] = t as u8;
+                carry = t >> 8;
+            }
+            let mut a = [0u8; 32];
+            a[i * w..(i + 1) * w].copy_from_slice(&x);
+            a[j * w..(j + 1) * w].copy_from_slice(&neg); // x + (-x) = 0
+            v.push(a);
+            let mut a = [0u8; 32];
+            a[i * w..(i + 1) * w].copy_from_slice(&x);
+            a[j * w..(j + 1) * w].copy_from_slice(&x); // x ^ x = 0
+            v.push(a);
+            // big-endian flavour of the same
+            let mut a = [0u8; 32];
+            let xr: Vec<u8> = x.iter().rev().cloned().collect();
+            let nr: Vec<u8> = neg.iter().rev().cloned().collect();
+            a[i * w..(i + 1) * w].copy_from_slice(&xr);
+            a[j * w..(j + 1) * w].copy_from_slice(&nr);
+            v.push(a);
+        }
+    }
+    v.push({ let mut a = [0u8; 32]; a[0] = 1; a[8..16].copy_from_slice(&u64::MAX.to_le_bytes()); a });
     v
 }
 
 pub fn run_c14(ctx: &Ctx) -> Report {
     let mut rep = Report::new("C14");
     rep.corr_module = "Pod".into();
-    rep.expect_classes(&["addr:none", "addr:some", "u64:none", "u64:some", "try:rejected"]);
+    rep.expect_classes(&["addr:none", "addr:some", "u64:none", "u64:some", "try:rejected", "max-none:none", "max-none:some", "max-none:default", "odd-none:none", "odd-none:some"]);
     let mut rng = Rng::new(ctx.seed.wrapping_mul(179).wrapping_add(14));
     let vals = addr_values(&mut rng, ctx.scale(300, 5000));
     for a in &vals {
@@ -449,6 +570,11 @@ pub fn run_c14(ctx: &Ctx) -> Report {
         rep.case(format!("COpt64 {} {}", v, emit::option(p.get().map(|x| format!("{}", x.0)))), !is_none);
         rep.case(format!("CTry64 (Some {}) {}", v, t.emit(|q| format!("{}", q.get().map(|x| x.0).unwrap_or(0)))), true);
     }
+    // carriers whose none value is not the Default value (and one with none = 0 through the same generic path)
+    let k = ctx.scale(200, 3000);
+    carrier_laws::<M64>(&mut rep, &mut rng, k, "max-none");
+    carrier_laws::<K64>(&mut rep, &mut rng, k, "odd-none");
+    carrier_laws::<N64>(&mut rep, &mut rng, k / 4, "zero-none");
     let _ = ProgramError::InvalidArgument;
     rep
 }
